@@ -60,29 +60,31 @@ def resolve(g, p, fn):
 
 
 def visible_names(g, p):
-    """name -> (hidden?, resolvable?) as the compiler of program p sees it after its inherit statements"""
+    """name -> (modifier set incl. 'hidden', has a body somewhere?) as the compiler of program p sees it;
+    mirrors copy_function / overload_function / define_new_function on the level of names"""
     info = {}
     P = g[p]
-    for mods, par in P.inherits():
-        sub = visible_names(g, par)
-        for fn, (mset, real) in sub.items():
-            f = set(mset)
-            if "private" in f:
-                f.add("hidden")
-            f |= set(m for m in mods.split("_") if m != "-")
-            if "public" in f:
-                f.discard("private")
-            if not real:
-                # an inherited prototype never replaces anything, but it is copied (with its modifiers) when new
-                if fn not in info:
-                    info[fn] = (f, False)
-                continue
-            info[fn] = (f, True)
+    ms = lambda m: set(x for x in m.split("_") if x != "-")
     for it in P.items:
-        if it[0] == "d":
-            info[it[2]] = (set(m for m in it[1].split("_") if m != "-"), True)
+        if it[0] == "i":
+            sub = visible_names(g, it[2])
+            for fn, (mset, real) in sub.items():
+                f = set(mset)
+                if "private" in f:
+                    f.add("hidden")
+                f |= ms(it[1])
+                if "public" in f:
+                    f.discard("private")
+                if not real:
+                    # an inherited prototype never replaces anything, but it is copied (with its modifiers) when new
+                    if fn not in info:
+                        info[fn] = (f, False)
+                    continue
+                info[fn] = (f, True)
+        elif it[0] == "d":
+            info[it[2]] = (ms(it[1]), True)
         elif it[0] == "p" and it[2] not in info:
-            info[it[2]] = (set(), False)
+            info[it[2]] = (ms(it[1]), False)
     return info
 
 
@@ -149,9 +151,10 @@ class C07(Prop):
     id = "C07"
     title = "calls reach the right function and respect visibility, whatever came before"
     lean_modules = ["NV.C07.Props", "NV.C07.Witness"]
-    theorems = ["NV.C07.visibility_table", "NV.C07.visibility_lifted", "NV.C07.bsearch_correct",
-                "NV.C07.find_function_correct", "NV.C07.find_offsets_are_path_sums",
-                "NV.C07.cache_transparent", "NV.C07.cache_transparent_step", "NV.C07.frame_offsets_correct"]
+    theorems = ["NV.C07.visibility_table", "NV.C07.visibility_any_flags", "NV.C07.visibility_lifted",
+                "NV.C07.driver_origins_never_refused", "NV.C07.bsearch_correct", "NV.C07.find_function_correct",
+                "NV.C07.find_offsets_are_path_sums", "NV.C07.cache_transparent_step", "NV.C07.cache_transparent",
+                "NV.C07.frame_offsets_correct"]
     witness_theorems = ["NV.C07.Witness.old_cache_not_transparent"]
     consts = [("applyCacheBits", "APPLY_CACHE_BITS"),
               ("nameInherited", "NAME_INHERITED"), ("nameUndefined", "NAME_UNDEFINED"),
